@@ -506,7 +506,8 @@ class PathEnum:
                 self.scan(s.iter if isinstance(s, ast.For) else s.test, env, reads)
                 body_paths = list(block(s.body, dict(env), reads))   # one iteration
                 # zero iterations: vacuous for per-element constraints - credit what every single iteration consults
-                common_reads = set.intersection(*[r2 for _, r2, _ in body_paths]) if body_paths else set()
+                acc_paths = [r2 for _, r2, st in body_paths if st != "raise"]         # an iteration that raises accepts nothing
+                common_reads = set.intersection(*acc_paths) if acc_paths else set()
                 yield env, reads | common_reads, "fall"
                 for e2, r2, st in body_paths:
                     yield e2, r2, ("fall" if st == "fall" else st)
